@@ -31,6 +31,10 @@ type Layout struct {
 	CharRefs  bool // numeric character references inside text and attributes
 	Shuffle   bool // attribute order shuffled
 	SelfClose bool // empty elements as <a></a> instead of <a/>
+	TagSpaces bool // extra white space inside tags: <a  b = "c" >, newlines between attributes
+	Entities  bool // &quot; &apos; &#x...; with leading zeros / upper-case hex in character data
+	Prolog    int  // 0 none, 1 comment before the root, 2 processing instruction before the root, 3 byte-order mark
+	Epilog    int  // 0 none, 1 comment after the root, 2 white space after the root
 	Seed      uint64
 }
 
@@ -47,6 +51,11 @@ func DrawLayout(t *core.Tape) Layout {
 	l.Shuffle = flags&64 != 0
 	l.SelfClose = t.Bool("lay.selfclose")
 	l.Seed = t.Draw(1<<32, "lay.seed")
+	extra := t.Int(64, "lay.extra")
+	l.TagSpaces = extra&1 != 0
+	l.Entities = extra&2 != 0
+	l.Prolog = (extra >> 2) & 3
+	l.Epilog = (extra >> 4) % 3
 	return l
 }
 
@@ -57,7 +66,14 @@ func (l Layout) Sig() string {
 			b |= 1 << i
 		}
 	}
-	return fmt.Sprintf("L%d.%x", l.PStyle, b)
+	x := 0
+	if l.TagSpaces {
+		x |= 1
+	}
+	if l.Entities {
+		x |= 2
+	}
+	return fmt.Sprintf("L%d.%x.%x%d%d", l.PStyle, b, x, l.Prolog, l.Epilog)
 }
 
 type attr struct{ k, v string }
@@ -149,6 +165,12 @@ func (w *xw) encText(v string) string {
 			b.WriteString("&gt;")
 		case c == '\r':
 			b.WriteString("&#xD;")
+		case w.l.Entities && c == '"':
+			b.WriteString("&quot;")
+		case w.l.Entities && c == '\'':
+			b.WriteString("&apos;")
+		case w.l.Entities && w.rnd(9) == 0:
+			fmt.Fprintf(&b, "&#x%06X;", c)
 		case w.l.CharRefs && w.rnd(7) == 0:
 			if w.rnd(2) == 0 {
 				fmt.Fprintf(&b, "&#x%x;", c)
@@ -190,7 +212,12 @@ func (w *xw) open(name string, ns []attr, attrs []attr, empty bool) {
 				w.b.WriteString(" " + a.k + "=" + w.q() + a.v + w.q())
 				continue
 			}
-			w.b.WriteString(" " + a.k + "=" + w.q() + w.encAttr(a.v) + w.q())
+			sep, eq := " ", "="
+			if w.l.TagSpaces {
+				sep = []string{" ", "  ", "\n   ", "\t"}[w.rnd(4)]
+				eq = []string{"=", " = ", "= "}[w.rnd(3)]
+			}
+			w.b.WriteString(sep + a.k + eq + w.q() + w.encAttr(a.v) + w.q())
 		}
 	}
 	if w.l.Shuffle && w.rnd(2) == 0 {
@@ -200,18 +227,28 @@ func (w *xw) open(name string, ns []attr, attrs []attr, empty bool) {
 		wr(ns)
 		wr(attrs)
 	}
+	sp := ""
+	if w.l.TagSpaces && w.rnd(2) == 0 {
+		sp = " "
+	}
 	if empty {
 		if w.l.SelfClose {
-			w.b.WriteString("></" + name + ">")
+			w.b.WriteString(sp + "></" + name + sp + ">")
 		} else {
-			w.b.WriteString("/>")
+			w.b.WriteString(sp + "/>")
 		}
 	} else {
-		w.b.WriteString(">")
+		w.b.WriteString(sp + ">")
 	}
 }
 
-func (w *xw) close(name string) { w.b.WriteString("</" + name + ">") }
+func (w *xw) close(name string) {
+	if w.l.TagSpaces && w.rnd(3) == 0 {
+		w.b.WriteString("</" + name + " >")
+		return
+	}
+	w.b.WriteString("</" + name + ">")
+}
 
 func (w *xw) textEl(name string, ns []attr, attrs []attr, text string) {
 	w.open(name, ns, attrs, false)
@@ -425,11 +462,20 @@ func RenderMessage(m *LResponse, l Layout) string {
 	w := newXW(l)
 	st := styleOf(l.PStyle)
 	P, A := st.p, st.a
+	if l.Prolog == 3 && !l.XMLDecl {
+		w.b.WriteString("\ufeff")
+	}
 	if l.XMLDecl {
 		w.b.WriteString(`<?xml version="1.0" encoding="UTF-8"?>`)
 		if l.Pretty {
 			w.b.WriteString("\n")
 		}
+	}
+	switch l.Prolog {
+	case 1:
+		w.b.WriteString("<!-- issued by the stub IdP -->\n")
+	case 2:
+		w.b.WriteString("<?idp-stub trace=\"1\"?>")
 	}
 	attrs := []attr{{"ID", m.ID}, {"Version", m.Version}, {"IssueInstant", m.IssueInstant}}
 	attrs = optAttr(attrs, "Destination", m.Destination)
@@ -477,6 +523,12 @@ func RenderMessage(m *LResponse, l Layout) string {
 	w.depth--
 	w.nl()
 	w.close(P + m.Kind)
+	switch l.Epilog {
+	case 1:
+		w.b.WriteString("<!-- end -->")
+	case 2:
+		w.b.WriteString("\n  \n")
+	}
 	return w.b.String()
 }
 
